@@ -13,7 +13,7 @@ use rand_chacha::ChaCha8Rng;
 use serde_json::json;
 use std::path::PathBuf;
 
-type R = ChaCha8Rng;
+pub type R = ChaCha8Rng;
 
 #[derive(Clone)]
 pub struct Tab {
@@ -463,8 +463,9 @@ fn expr_pool() -> (Tab, Vec<E>, Vec<E>) {
     let def = TableDef { name: "g".into(), cols: vec![
         ColDef { name: "id".into(), ty: Ty::Int, nn: false }, ColDef { name: "a".into(), ty: Ty::Int, nn: false },
         ColDef { name: "b".into(), ty: Ty::Int, nn: false }, ColDef { name: "s".into(), ty: Ty::Text, nn: false },
-        ColDef { name: "f".into(), ty: Ty::Bool, nn: false }], uniq: vec![] };
+        ColDef { name: "f".into(), ty: Ty::Bool, nn: false }, ColDef { name: "d".into(), ty: Ty::Double, nn: false }], uniq: vec![] };
     let t = Tab { def, next_id: 1, ids: vec![], updatable: true, maybe_null: vec![] };
+    let d = || col(&t, "g", 5, 0);
     let a = || col(&t, "g", 1, 0);
     let b = || col(&t, "g", 2, 0);
     let sc = || col(&t, "g", 3, 0);
@@ -496,9 +497,20 @@ fn expr_pool() -> (Tab, Vec<E>, Vec<E>) {
         }
         atoms.push(E::Bin(op, bx(sc()), bx(E::Lit(V::Text("ab".into())))));
         atoms.push(E::Bin(op, bx(sc()), bx(E::Lit(V::Text("".into())))));
+        // integers against doubles with a fractional part, on both sides of zero (the grid pairs -1 with -1.5, 0 with -0.5 and 0.5)
+        atoms.push(E::Bin(op, bx(a()), bx(d())));
+        atoms.push(E::Bin(op, bx(d()), bx(b())));
+        atoms.push(E::Bin(op, bx(d()), bx(li(0))));
+        atoms.push(E::Bin(op, bx(li(-1)), bx(d())));
+        atoms.push(E::Bin(op, bx(E::Bin("add", bx(a()), bx(b()))), bx(d())));
+        atoms.push(E::Bin(op, bx(d()), bx(E::Lit(V::F2(-3)))));
+        atoms.push(E::Bin(op, bx(a()), bx(E::Lit(V::F2(-1)))));
     }
     for neg in [false, true] {
-        for c in [a(), b(), sc(), f()] { atoms.push(E::IsNull(bx(c), neg)); }
+        for c in [a(), b(), sc(), f(), d()] { atoms.push(E::IsNull(bx(c), neg)); }
+        atoms.push(E::Between(bx(d()), bx(li(-1)), bx(li(1)), neg));
+        atoms.push(E::Between(bx(a()), bx(d()), bx(li(2)), neg));
+        atoms.push(E::In(bx(d()), vec![li(-1), li(2), E::Lit(V::F2(1))], neg));
         for x in [a(), E::Bin("add", bx(a()), bx(b()))] {
             atoms.push(E::Between(bx(x.clone()), bx(li(0)), bx(li(2)), neg));
             atoms.push(E::Between(bx(x.clone()), bx(b()), bx(li(2)), neg));
@@ -521,11 +533,12 @@ fn seg_exprs(run: &mut Runner, seg: u64, nslices: u64) -> usize {
     let bv = [V::Null, V::Int(0), V::Int(1), V::Int(3)];
     let sv = [V::Text("ab".into()), V::Null, V::Text("".into()), V::Text("b".into()), V::Text("a".into())];
     let fv = [V::Bool(true), V::Bool(false), V::Null];
+    let dv = [V::F2(-3), V::F2(-2), V::Null, V::F2(1), V::F2(4), V::F2(-1)]; // -1.5 -1.0 NULL 0.5 2.0 -0.5
     let mut id = 0;
     let mut rows = vec![];
-    for x in &av { for y in &bv { id += 1; rows.push(vec![V::Int(id), x.clone(), y.clone(), sv[(id as usize) % 5].clone(), fv[(id as usize) % 3].clone()]); } }
+    for x in &av { for y in &bv { id += 1; rows.push(vec![V::Int(id), x.clone(), y.clone(), sv[(id as usize) % 5].clone(), fv[(id as usize) % 3].clone(), dv[(id as usize) % 6].clone()]); } }
     for chunk in rows.chunks(4) {
-        run.auto(&Stmt::Insert { tbl: "g".into(), cols: (0..5).map(|i| (i + 1, t.def.cols[i].name.clone())).collect(), rows: chunk.to_vec() });
+        run.auto(&Stmt::Insert { tbl: "g".into(), cols: (0..6).map(|i| (i + 1, t.def.cols[i].name.clone())).collect(), rows: chunk.to_vec() });
     }
     let idc = col(&t, "g", 0, 0);
     let mk = |wher: E, proj: Vec<Proj>, full: bool| Select { from: from_single(&t), wher, has_where: true, agg: false, group: vec![], proj, distinct: false, order: vec![], limit: -1, offset: 0, full_parens: full };
@@ -692,11 +705,16 @@ fn seg_snap(run: &mut Runner, r: &mut R) {
 /// C07: constraint histories - duplicates, delete + re-insert, rolled-back inserts, vacuum, index creation after the data
 fn seg_uniq(run: &mut Runner, r: &mut R) {
     run.reset(default_cfg());
-    let two_col = r.random_bool(0.4);
+    // the key: (id), (id, c1), (c1, id) - declared against the order of the table - or (c2 TEXT, id): a fixed-width
+    // value after a variable-length one (its alignment inside the index tuple matters)
+    let mode = r.random_range(0..10);
+    let two_col = (4..8).contains(&mode);
+    let text_first = mode >= 8;
     let late_index = r.random_bool(0.5);
     let mut t = rand_table(r, "t1", false);
     t.def.cols[1].nn = two_col || r.random_bool(0.5); // no NULL in a UNIQUE column: finding NullInUniqueColumnRejected
-    let ucols: Vec<usize> = if two_col { vec![1, 2] } else { vec![1] };
+    if text_first { t.def.cols[2] = ColDef { name: "c2".into(), ty: Ty::Text, nn: true }; }
+    let ucols: Vec<usize> = if text_first { vec![3, 1] } else if mode >= 6 { vec![2, 1] } else if two_col { vec![1, 2] } else { vec![1] };
     if !late_index { t.def.uniq = vec![ucols.clone()]; }
     t.updatable = false;
     run.auto(&Stmt::Create(t.def.clone()));
@@ -706,7 +724,12 @@ fn seg_uniq(run: &mut Runner, r: &mut R) {
     let ins = |id: i64, c1: i64, t: &Tab, r: &mut R| -> Stmt {
         let mut row = vec![V::Int(id), V::Int(c1)];
         let mut cols = vec![(1usize, "id".to_string()), (2usize, "c1".to_string())];
-        for i in 2..t.def.cols.len() { cols.push((i + 1, t.def.cols[i].name.clone())); row.push(rand_val(r, &t.def.cols[i].ty, !t.def.cols[i].nn)); }
+        for i in 2..t.def.cols.len() {
+            cols.push((i + 1, t.def.cols[i].name.clone()));
+            // with the key (c2, id) the text is a function of the id, so that a repeated id is a repeated key
+            if text_first && i == 2 { row.push(V::Text(["x", "xyz", ""][(id.rem_euclid(3)) as usize].to_string())); continue; }
+            row.push(rand_val(r, &t.def.cols[i].ty, !t.def.cols[i].nn));
+        }
         Stmt::Insert { tbl: "t1".into(), cols, rows: vec![row] }
     };
     if late_index {
@@ -788,6 +811,17 @@ fn seg_uniq(run: &mut Runner, r: &mut R) {
                 if let Stmt::Insert { rows, .. } = &mut st { rows[0][1] = V::Null; }
                 if run.auto(&st).is_ok() { keys.push((fresh_id, -99)); }
             }
+            9 if !keys.is_empty() && indexed => {
+                // a session deletes a live key and rolls back: the key is still taken, a duplicate must be refused
+                let (id, c1) = *pick(r, &keys);
+                if keys.iter().filter(|k| k.0 == id).count() == 1 && run.begin(1).is_ok() {
+                    let idc = col(&t, "t1", 0, 0);
+                    run.stmt(1, &Stmt::Delete { tbl: "t1".into(), wher: E::Bin("eq", Box::new(idc), Box::new(E::Lit(V::Int(id)))), has_where: true });
+                    run.rollback(1);
+                    let st = ins(id, c1, &t, r);
+                    if run.auto(&st).is_ok() { keys.push((id, c1)); }
+                }
+            }
             9 => { run.auto(&Stmt::Select(rand_select(r, std::slice::from_ref(&t), false))); }
             10 => { run.vacuum(); }
             _ => { run.auto(&Stmt::Select(rand_select(r, std::slice::from_ref(&t), false))); }
@@ -854,15 +888,40 @@ fn permute_join(s: &Select) -> Option<Select> {
 fn seg_plan(run: &mut Runner, r: &mut R, stats: &mut serde_json::Value) {
     run.reset(default_cfg());
     let early = r.random_bool(0.5);
+    // the index: on id, or a composite one on (id, c1) / (c1, id) - bounds on its trailing column must not end the scan early
+    let composite = r.random_range(0..10);
+    let icols: Vec<usize> = match composite { 0..=5 => vec![1], 6 | 7 => vec![1, 2], _ => vec![2, 1] };
     let mut tabs: Vec<Tab> = vec![rand_table(r, "t1", early), rand_table(r, "t2", false)];
     tabs[0].updatable = false;
+    if icols.len() > 1 { tabs[0].def.cols[1].nn = true; } // no NULL in a key column: finding NullInUniqueColumnRejected
+    if early { tabs[0].def.uniq = vec![icols.clone()]; }
     for t in tabs.iter_mut() { run.auto(&Stmt::Create(t.def.clone())); }
     let mut indexed = early;
-    let idx_stmt = Stmt::Index { name: "t1_id".into(), tbl: "t1".into(), cols: vec![(1, "id".into())] };
+    let idx_stmt = Stmt::Index { name: "t1_id".into(), tbl: "t1".into(), cols: icols.iter().map(|c| (*c, tabs[0].def.cols[*c - 1].name.clone())).collect() };
+    // a sweep: every comparison against one stored key (the boundary row), the column on either side - and the same on the
+    // trailing column of a composite index, alone and under a bound on the leading one
+    let sweep = |run: &mut Runner, r: &mut R, t: &Tab| {
+        if t.ids.is_empty() { return; }
+        let k = *pick(r, &t.ids);
+        let v = r.random_range(-3..12);
+        let lo = *t.ids.iter().min().unwrap();
+        let one = |op: &'static str, flip: bool, c: E, k: i64| if flip { E::Bin(op, Box::new(E::Lit(V::Int(k))), Box::new(c)) } else { E::Bin(op, Box::new(c), Box::new(E::Lit(V::Int(k)))) };
+        for op in ["lt", "le", "gt", "ge", "eq"] {
+            for flip in [false, true] {
+                let mut preds = vec![one(op, flip, col(t, "t1", 0, 0), k)];
+                if icols.len() > 1 {
+                    preds.push(one(op, flip, col(t, "t1", 1, 0), v));
+                    preds.push(E::Bin("and", Box::new(one("ge", false, col(t, "t1", 0, 0), lo)), Box::new(one(op, flip, col(t, "t1", 1, 0), v))));
+                }
+                for p in preds { let mut s = select_all(t); s.wher = p; s.has_where = true; s.full_parens = false; run.auto(&Stmt::Select(s)); }
+            }
+        }
+    };
     let n = r.random_range(25..55);
     for step in 0..n {
         if run.hung { return; }
         let c = r.random_range(0..100);
+        if early && step == 8 { sweep(run, r, &tabs[0]); }
         if c < 30 {
             let ti = r.random_range(0..2);
             let s = rand_insert(r, &mut tabs[ti], 0, 1, false);
@@ -880,7 +939,7 @@ fn seg_plan(run: &mut Runner, r: &mut R, stats: &mut serde_json::Value) {
                 if r.random_bool(0.6) { run.rollback(1); } else if run.commit(1).is_ok() { note_insert(&mut tabs[0], &single); }
             }
         } else if c < 56 && !indexed && step > 5 {
-            if run.auto(&idx_stmt).is_ok() { indexed = true; tabs[0].def.uniq = vec![vec![1]]; }
+            if run.auto(&idx_stmt).is_ok() { indexed = true; tabs[0].def.uniq = vec![icols.clone()]; sweep(run, r, &tabs[0]); }
         } else if c < 60 { run.vacuum(); }
         else if c < 64 { run.analyze(); }   // statistics change the cost model and with it the chosen plans
         else {
@@ -891,7 +950,17 @@ fn seg_plan(run: &mut Runner, r: &mut R, stats: &mut serde_json::Value) {
                 let sc = Scope(vec![(t, "t1".into(), 0)]);
                 let idc = col(t, "t1", 0, 0);
                 let k = if t.ids.is_empty() { 1 } else { *pick(r, &t.ids) };
-                let pred = match r.random_range(0..5) {
+                // one bound: every comparison, the column on either side, the literal on a stored key (boundary row)
+                let bound = |r: &mut R, c: E, k: i64| -> E {
+                    let op = *pick(r, &["lt", "le", "gt", "ge", "eq"]);
+                    if r.random_bool(0.5) { E::Bin(op, Box::new(c), Box::new(E::Lit(V::Int(k)))) } else { E::Bin(op, Box::new(E::Lit(V::Int(k))), Box::new(c)) }
+                };
+                let c1c = col(t, "t1", 1, 0);
+                let pred = match r.random_range(0..9) {
+                    5 => bound(r, idc, k),
+                    6 => { let k2 = if t.ids.is_empty() { 3 } else { *pick(r, &t.ids) }; E::Bin("and", Box::new(bound(r, idc.clone(), k)), Box::new(bound(r, idc, k2))) }
+                    7 => { let v = r.random_range(-2..12); bound(r, c1c, v) }
+                    8 => { let v = r.random_range(-2..12); E::Bin("and", Box::new(bound(r, idc, k)), Box::new(bound(r, c1c, v))) }
                     0 => E::Bin("eq", Box::new(idc), Box::new(E::Lit(V::Int(k)))),
                     1 => E::Between(Box::new(idc), Box::new(E::Lit(V::Int(k - 2))), Box::new(E::Lit(V::Int(k + 3))), false),
                     2 => E::Bin("gt", Box::new(idc), Box::new(E::Lit(V::Int(k)))),
@@ -907,7 +976,7 @@ fn seg_plan(run: &mut Runner, r: &mut R, stats: &mut serde_json::Value) {
             q.full_parens = false;
             let mut plans: Vec<String> = vec![];
             let mut variants = vec![q.clone()];
-            variants.push(map_select(&q, &|e| defeat_index(e, ".id")));
+            variants.push(map_select(&q, &|e| defeat_index(&defeat_index(e, ".id"), "t1.c1")));
             if let Some(p) = permute_join(&q) { variants.push(p); }
             for v in &variants {
                 if let crate::eng::Out::Rows(rows) = run.eng.explain(&v.sql()) { plans.push(rows[0][0]["v"].as_str().unwrap_or("").to_string()); }
@@ -920,6 +989,7 @@ fn seg_plan(run: &mut Runner, r: &mut R, stats: &mut serde_json::Value) {
             if plans.iter().any(|p| p.contains("IndexScan")) { stats["index_scans"] = json!(stats["index_scans"].as_u64().unwrap_or(0) + 1); }
         }
     }
+    if indexed { sweep(run, r, &tabs[0]); }
     for t in &tabs { run.auto(&Stmt::Select(select_all(t))); }
 }
 
@@ -1194,7 +1264,10 @@ fn seg_ddl(run: &mut Runner, r: &mut R, stats: &mut serde_json::Value) {
                     // autocommit: the drop is in effect at once, the old definition must not be used any more
                     if exec(run, &Stmt::Drop(name.clone())).is_ok() { live.retain(|t| t.def.name != name); dropped.push(name); }
                 }
-                4 => { exec(run, &Stmt::Drop("nosuch".into())); }
+                4 => {
+                    // a name that is not there: an error without IF EXISTS, a no-op with it - and every other table stays
+                    if r.random_bool(0.5) { exec(run, &Stmt::Drop("nosuch".into())); } else { exec(run, &Stmt::DropIfExists("nosuch".into())); }
+                }
                 5 | 6 => {
                     // DML on another table in the same transaction
                     let st = rand_insert(r, &mut keep, 0, 1, false);
